@@ -78,6 +78,11 @@ pub enum Mode {
         dispatchers: usize,
         per_dispatcher: usize,
         schedule: u64,
+        /// non-zero: the volume variant - the workers run, every frame is an IPv4 packet of this total length, and a
+        /// dispatcher that is told Dropped waits and offers the frame again, so that more than 4 GiB pass through one
+        /// worker of one pool
+        #[serde(default)]
+        volume_frame_len: usize,
     },
 }
 
@@ -462,14 +467,19 @@ impl Prop for C18 {
 
     fn generate(r: &mut Rng, tier: Tier, _idx: u64) -> Scn {
         let kind = *r.pick(&PoolKind::ALL);
-        if r.chance(1, 160) {
+        if r.chance(1, 110) {
             // drop storm: totals that cross 2^16 and 2^17 drops on one worker while two or three dispatchers are active
             let dispatchers = r.urange(2, 3);
             let total = *r.pick(&[70_000usize, 90_000, 140_000]);
             let cfg = PoolCfg { kind, workers: r.urange(1, 3), queue: *r.pick(&[1usize, 2, 16]), batch: *r.pick(&[1usize, 16]), timeout_ms: 10, cap: 64, with_db: false, filter: None };
             let h = tcp::Host::random(r);
             let seg = tcp::data(&h, Endpoint::v4(10, 78, r.u8(), 1, 40000), Endpoint::v4(10, 78, 0, 2, 443), 1001, 5001, vec![], 0, 0, pkt::ACK);
-            return Scn { mode: Mode::Storm { cfg, frame: pkt::frame(&seg, Framing::Ethernet), dispatchers, per_dispatcher: total / dispatchers + r.usize_below(50), schedule: r.next_u64() } };
+            if r.chance(1, 2) {
+                // volume: 2 x 34000 (or 3 x 23000) frames of 65535 bytes = 4.4 GiB through one worker
+                let cfg = PoolCfg { queue: *r.pick(&[8usize, 64, 256]), ..cfg };
+                return Scn { mode: Mode::Storm { cfg, frame: pkt::frame(&seg, Framing::Ethernet), dispatchers, per_dispatcher: 68_500 / dispatchers, schedule: r.next_u64(), volume_frame_len: 65535 } };
+            }
+            return Scn { mode: Mode::Storm { cfg, frame: pkt::frame(&seg, Framing::Ethernet), dispatchers, per_dispatcher: total / dispatchers + r.usize_below(50), schedule: r.next_u64(), volume_frame_len: 0 } };
         }
         if r.chance(1, 4) {
             // affinity scenario
@@ -603,7 +613,18 @@ impl Prop for C18 {
                 st.nontrivial = seen_q && seen_d;
                 Ok(())
             }
-            Mode::Storm { cfg, frame, dispatchers, per_dispatcher, schedule } => {
+            Mode::Storm { cfg, frame, dispatchers, per_dispatcher, schedule, volume_frame_len } => {
+                let volume = *volume_frame_len;
+                let frame = &if volume > 0 {
+                    // the same endpoints, an IPv4 packet of exactly `volume` bytes behind the Ethernet header
+                    let mut f = frame.clone();
+                    f.resize(14 + volume, 0);
+                    f[16] = (volume >> 8) as u8;
+                    f[17] = volume as u8;
+                    f
+                } else {
+                    frame.clone()
+                };
                 // (queued, dropped, stats at quiescence, error)
                 type Out = (u64, u64, Option<pool::StatsSnap>, Option<String>);
                 let slot: Arc<std::sync::Mutex<Out>> = Arc::new(std::sync::Mutex::new((0, 0, None, None)));
@@ -611,7 +632,7 @@ impl Prop for C18 {
                 pool::run_scheduled_steps(*schedule, Sched::Random, 1, 200_000_000, move || {
                     verif_chan::evlog_reset();
                     verif_chan::reset_ids();
-                    verif_chan::stall(true);
+                    verif_chan::stall(volume == 0);
                     let mut o: Out = (0, 0, None, None);
                     match pool::make_pool(&cfg2) {
                         Err(e) => o.3 = Some(e),
@@ -627,6 +648,17 @@ impl Prop for C18 {
                                                 q += 1;
                                             } else {
                                                 d += 1;
+                                                // volume variant: wait for the worker and offer the frame again
+                                                let mut tries = 0;
+                                                while volume > 0 && tries < 10_000 {
+                                                    shuttle::thread::yield_now();
+                                                    tries += 1;
+                                                    if p.dispatch(f.clone()) {
+                                                        q += 1;
+                                                        break;
+                                                    }
+                                                    d += 1;
+                                                }
                                             }
                                         }
                                         (q, d)
@@ -658,14 +690,19 @@ impl Prop for C18 {
                 let stats = stats.ok_or_else(|| Violation::new("harness-error", "", "storm execution did not finish".to_string()))?;
                 st.evals = 1;
                 st.packets += (dispatchers * per_dispatcher) as u64;
-                st.fault("workers_stalled");
+                if volume == 0 {
+                    st.fault("workers_stalled");
+                }
                 st.fault_n("queue_full", dropped);
                 st.probe_n("drop_storm_drops", dropped);
                 st.ev_u64(queued);
                 st.ev_u64(dropped);
                 let key = format!("{}:storm", cfg.kind.name());
-                if queued + dropped != (dispatchers * per_dispatcher) as u64 {
+                if volume == 0 && queued + dropped != (dispatchers * per_dispatcher) as u64 {
                     return Err(Violation::new("harness-error", "", format!("{} outcomes for {} dispatch calls", queued + dropped, dispatchers * per_dispatcher)));
+                }
+                if volume > 0 {
+                    st.fault_n("gigabytes_through_one_worker", queued * volume as u64 >> 30);
                 }
                 if stats.dropped != dropped {
                     return Err(Violation::new("stats-dropped", key, format!("{} dispatchers x {} frames for one stalled worker: stats().total_dropped = {} but {} dispatch calls returned Dropped", dispatchers, per_dispatcher, stats.dropped, dropped)));
@@ -827,12 +864,12 @@ fn shrink_impl(s: &Scn) -> Vec<Scn> {
                     out.push(Scn { mode: Mode::Accounting { cfg: c, dispatchers: dispatchers.clone(), schedules: schedules.clone(), iters, sched: *sched, stats_calls: *stats_calls, consumer_gone_after: *consumer_gone_after, shutdown_after_yields: *shutdown_after_yields } });
                 }
             }
-            Mode::Storm { cfg, frame, dispatchers, per_dispatcher, schedule } => {
-                if *per_dispatcher > 1000 {
-                    out.push(Scn { mode: Mode::Storm { cfg: cfg.clone(), frame: frame.clone(), dispatchers: *dispatchers, per_dispatcher: per_dispatcher / 2, schedule: *schedule } });
+            Mode::Storm { cfg, frame, dispatchers, per_dispatcher, schedule, volume_frame_len } => {
+                if *per_dispatcher > 1000 && *volume_frame_len == 0 {
+                    out.push(Scn { mode: Mode::Storm { cfg: cfg.clone(), frame: frame.clone(), dispatchers: *dispatchers, per_dispatcher: per_dispatcher / 2, schedule: *schedule, volume_frame_len: 0 } });
                 }
-                if *dispatchers > 2 {
-                    out.push(Scn { mode: Mode::Storm { cfg: cfg.clone(), frame: frame.clone(), dispatchers: dispatchers - 1, per_dispatcher: *per_dispatcher, schedule: *schedule } });
+                if *dispatchers > 2 && *volume_frame_len == 0 {
+                    out.push(Scn { mode: Mode::Storm { cfg: cfg.clone(), frame: frame.clone(), dispatchers: dispatchers - 1, per_dispatcher: *per_dispatcher, schedule: *schedule, volume_frame_len: 0 } });
                 }
             }
             Mode::Affinity { kind, seg, variants, base_framing, must_differ_ok, all_patch, byte_variants } => {
